@@ -80,3 +80,22 @@ pub fn check(target: &str, r: Option<(Failure, String)>) {
         panic!("VERIF-VIOLATION target={target} sig={} :: {} :: case={c}", f.sig, f.msg);
     }
 }
+
+/// Shared `hist` target: the first byte (or $VERIF_HIST_SEL) selects the property.
+pub fn fuzz_hist(data: &[u8]) -> Option<(Failure, String)> {
+    use crate::props::simprops::*;
+    let (sel, rest) = data.split_first()?;
+    let sel = std::env::var("VERIF_HIST_SEL")
+        .ok()
+        .and_then(|s| s.parse::<u8>().ok())
+        .unwrap_or(*sel);
+    match sel % 7 {
+        0 => fuzz_struct::<C06>(rest),
+        1 => fuzz_struct::<C07>(rest),
+        2 => fuzz_struct::<C08>(rest),
+        3 => fuzz_struct::<C09>(rest),
+        4 => fuzz_struct::<C10>(rest),
+        5 => fuzz_struct::<C13>(rest),
+        _ => fuzz_struct::<C15>(rest),
+    }
+}
